@@ -511,6 +511,15 @@ func (b *Builder) genMap(ctx pairCtx, src, dst *SDecl, name string) {
 		src.Methods = append(src.Methods, fmt.Sprintf("func (r %s) %s() (%s, error) {\n\tvtr.Enter(%q)\n\tif vtr.Fail(%q) {\n\t\tvar z %s\n\t\treturn z, vtr.ErrOf(%q)\n\t}\n\treturn r.%s, nil\n}\n",
 			src.Name, other, t, site, site, t, site, hidden))
 		m.Notations = append(m.Notations, Notation{Name: "map", Args: []string{sp(other + "()"), dpath}})
+		m.ErrSites = append(m.ErrSites, site)
+		if !m.HasErr {
+			if b.chance(b.P.ConvErrInNoErr) {
+				b.S.InConv = false
+				b.S.Feature("reject_hint", "err-callback-in-noerr-method")
+			} else {
+				m.HasErr = true
+			}
+		}
 	case "nestedsrc":
 		ns := b.newStruct(src.Pkg, "SM")
 		ns.Fields = append(ns.Fields, FDecl{Name: "Deep", Type: t})
@@ -638,8 +647,14 @@ func (b *Builder) genConv(ctx pairCtx, src, dst *SDecl, name string) {
 		}
 		dstT, srcT, paramT = retT, argT, argT
 	}
-	if withErr && !m.HasErr && !b.chance(b.P.ConvErrInNoErr) {
-		m.HasErr = true
+	if withErr && !m.HasErr {
+		if b.chance(b.P.ConvErrInNoErr) {
+			// error-returning converter in a method without error result: outside the conventions
+			b.S.InConv = false
+			b.S.Feature("reject_hint", "err-callback-in-noerr-method")
+		} else {
+			m.HasErr = true
+		}
 	}
 	dst.Fields = append(dst.Fields, FDecl{Name: dstField, Type: dstT})
 	srcExpr := joinPath(ctx.srcPath, srcField)
@@ -675,6 +690,9 @@ func (b *Builder) genConv(ctx pairCtx, src, dst *SDecl, name string) {
 			b.funcsT = append(b.funcsT, fn)
 		}
 		b.S.RegFuncs = append(b.S.RegFuncs, fname)
+	}
+	if withErr {
+		m.ErrSites = append(m.ErrSites, fname)
 	}
 	args := []string{fname, srcExpr}
 	dpath := joinPath(ctx.dstPath, dstField)
@@ -765,6 +783,15 @@ func (b *Builder) genHook(m *Method, kind string, srcT, dstT string) {
 		b.funcsT = append(b.funcsT, fn)
 	}
 	m.Notations = append(m.Notations, Notation{Name: kind, Args: []string{fname}})
+	b.S.RegFuncs = append(b.S.RegFuncs, fname)
+	if kind == "preprocess" {
+		m.PreSite = fname
+	} else {
+		m.PostSite = fname
+	}
+	if withErr {
+		m.ErrSites = append(m.ErrSites, fname)
+	}
 	m.Probes = append(m.Probes, Probe{Dst: "", Mech: kind, Extra: fmt.Sprintf("dstptr=%v srcptr=%v err=%v extras=%v", dstPtr, srcPtr, withErr, withExtras)})
 }
 
